@@ -97,7 +97,8 @@ inductive WF : Schema → Prop
   | arr {e : Schema} : WF e → WF (.arr e)
   | map {ok : Str → Bool} {s : Schema} : WF s → WF (.map ok s)
   | obj {fields : List Field} {keep : Bool} :
-      (∀ f, f ∈ fields → WF f.schema) → (∀ f, f ∈ fields → f.Ok) → Distinct fields → WF (.obj fields keep)
+      (∀ f, f ∈ fields → WF f.schema) → (∀ f, f ∈ fields → f.Ok) → Distinct fields →
+      (keep = true → ∀ f, f ∈ fields → f.ghost = false) → WF (.obj fields keep)
   | nullOr {s : Schema} : WF s → WF (.nullOr s)
   | tagged {tag : Str} {cases : List Case} :
       (∀ c, c ∈ cases → WF c.schema) → (∀ c, c ∈ cases → TagFixed tag c.label c.schema) → WF (.tagged tag cases)
